@@ -11,12 +11,13 @@ import numpy as np
 
 NAMES = list("abcdefgh")
 REDUCE = ["sum", "mean", "var", "std", "prod", "count_nonzero", "any", "all", "max", "min", "logsumexp"]
-ELEM = ["add", "subtract", "multiply", "true_divide", "maximum", "minimum", "less", "equal", "logical_and", "where", "logaddexp"]
+ELEM = ["add", "subtract", "multiply", "true_divide", "maximum", "minimum", "less", "equal", "logical_and", "where", "logaddexp",
+        "floor_divide", "divide", "logical_or", "less_equal", "greater", "greater_equal", "not_equal"]
 PRES = ["flip", "roll", "sort", "argsort", "softmax", "log_softmax"]
 # operations that only move data (results must be bit-identical across processes)
 DATA_MOVING = {"id", "get_at", "set_at", "flip", "roll", "sort", "argsort", "argmax", "argmin", "max", "min", "maximum", "minimum", "where", "less", "equal",
-               "any", "all", "count_nonzero", "logical_and", "solve_axes", "solve_shapes", "matches"}
-FAMILIES = ["id", "id", "reduce", "reduce", "elem", "elem", "dot", "get_at", "update_at", "argfind", "pres", "idcat", "ell", "solve"]
+               "any", "all", "count_nonzero", "logical_and", "logical_or", "less_equal", "greater", "greater_equal", "not_equal", "solve_axes", "solve_shapes", "matches"}
+FAMILIES = ["id", "id", "reduce", "reduce", "elem", "elem", "dot", "dot3", "get_at", "get_at_multi", "update_at", "argfind", "pres", "idcat", "ell", "ellred", "solve"]
 
 
 def mkdata(rng, shape, kind="int"):
@@ -176,7 +177,34 @@ def gen_call(rng, fam=None, names=NAMES):
             d = f"{gstr(gi, br)} -> {' '.join(n for n, _ in keep)}"
         else:
             d = f"{gstr(gi)} -> {' '.join(n for n, _ in keep)}"
+        if rng.random() < 0.12:
+            kw["keepdims"] = rng.random() < 0.7  # deprecated spelling of "a ([b])"
         return _d(op, d, [x], kw, axes=ax)
+    if fam == "ellred":
+        op = rng.choice(REDUCE + ["flip", "softmax"])
+        ax = axes(rng, rng.randint(2, 4), names=names)
+        k2 = "float" if op in ("mean", "var", "std", "logsumexp", "softmax") else ("bool" if op in ("any", "all") else kind)
+        style = rng.choice(["a... [c]", "[a...] c", "a [b...]", "[a] b..."])
+        return _d(op, style, [mkdata(rng, tuple(s for _, s in ax), k2)])
+    if fam == "dot3":
+        ax = axes(rng, 5, sizes=(1, 2, 2, 3), names=names)
+        (a, sa), (b, sb), (c, sc), (d_, sd), (e, se) = ax
+        desc = f"{a} {b} {c}, {c} {d_}, {d_} {e} -> {a} {b} {e}" if rng.random() < 0.5 else f"{a} [{c}], [{c}] {d_}, {d_} {e} -> {a} {e}"
+        if "[" in desc:
+            return _d("dot", desc, [mkdata(rng, (sa, sc), kind), mkdata(rng, (sc, sd), kind), mkdata(rng, (sd, se), kind)], axes=ax)
+        return _d("dot", desc, [mkdata(rng, (sa, sb, sc), kind), mkdata(rng, (sc, sd), kind), mkdata(rng, (sd, se), kind)], axes=ax)
+    if fam == "get_at_multi":
+        ax = axes(rng, 3, sizes=(2, 3, 4), names=names)
+        (h, sh), (w, sw), (c, sc) = ax
+        free = [n for n in names if n not in dict(ax)]
+        p_, sp = free[0], rng.choice((1, 2, 3, 4))
+        t = mkdata(rng, (sh, sw, sc), kind)
+        ih = {"shape": [sp], "dtype": "int64", "data": [rng.randrange(sh) for _ in range(sp)]}
+        iw = {"shape": [sp], "dtype": "int64", "data": [rng.randrange(sw) for _ in range(sp)]}
+        if rng.random() < 0.5:
+            return _d("get_at", f"[{h} {w}] {c}, {p_}, {p_} -> {p_} {c}", [t, ih, iw])
+        op = rng.choice(["set_at", "add_at", "subtract_at"])
+        return _d(op, f"[{h} {w}] {c}, {p_}, {p_}, {p_} {c} -> [{h} {w}] {c}", [t, ih, iw, mkdata(rng, (sp, sc), kind)])
     if fam == "elem":
         op = rng.choice(ELEM)
         ax = axes(rng, rng.randint(1, 4), names=names)
@@ -188,7 +216,7 @@ def gen_call(rng, fam=None, names=NAMES):
             ins.append(sub)
         out = ax[:]
         rng.shuffle(out)
-        k2 = "bool" if op.startswith("logical") else ("float" if op in ("true_divide", "logaddexp") else kind)
+        k2 = "bool" if op.startswith("logical") else ("float" if op in ("true_divide", "logaddexp", "divide") else kind)
         xs = [mkdata(rng, tuple(s for _, s in sub), "bool" if (op == "where" and i == 0) else k2) for i, sub in enumerate(ins)]
         d = ", ".join(" ".join(n for n, _ in sub) for sub in ins)
         if rng.random() < 0.7:
@@ -260,6 +288,8 @@ def gen_call(rng, fam=None, names=NAMES):
         one = op in ("sort", "argsort")
         br = frozenset([rng.choice(ax)[0]]) if one else (frozenset(n for n, _ in ax if rng.random() < 0.5) or frozenset([ax[0][0]]))
         kw = {"shift": rng.randint(-3, 3)} if op == "roll" else {}
+        if op == "roll" and len(br) > 1 and rng.random() < 0.5:
+            kw = {"shift": {"tuple": [rng.randint(-2, 2) for _ in br]}}
         k2 = "float" if "softmax" in op else kind
         return _d(op, gstr([[a] for a in ax], br), [mkdata(rng, tuple(s for _, s in ax), k2)], kw, axes=ax)
     if fam == "solve":
